@@ -37,6 +37,12 @@ type Line struct {
 	// canonicalizer lines: t = "u" (one grammar URL in In) and t = "cls" (spellings of one URL)
 	Sp  []proj.Text `json:"sp"`
 	Std bool        `json:"std"`
+	// scan lines (t = "scan", C17): every concatenation of up to N tokens after every prefix is canonicalized twice by the driver; only the
+	// inputs on which the fixed-point law fails, and every Sample-th other one, become events for TLC
+	Pre    []proj.Text `json:"pre"`
+	Tok    []proj.Text `json:"tok"`
+	N      int         `json:"n"`
+	Sample int         `json:"sample"`
 }
 
 type Mismatch struct {
